@@ -5,6 +5,7 @@ import (
 	"go/ast"
 	"go/token"
 	"go/types"
+	"golang.org/x/tools/go/cfg"
 	"sort"
 
 	"verif/engine/core"
@@ -347,3 +348,134 @@ func identityOperandCoverage(c *core.Ctx, rule string) {
 		}
 	}
 }
+
+// ecmpLeadingRun: the equal-cost set is the LEADING run of the sorted path list: counting stops at the first neighbour
+// pair that is not ECMP-equal.  Rule on the control-flow graph of updateEqualPathCount: from the false outcome of the
+// ECMP test no increment of the counter is reachable any more.
+func ecmpLeadingRun(c *core.Ctx) {
+	const rule = "ecmp-set-is-leading-run"
+	p := c.P
+	c.Floor(rule, 1)
+	f := c.MustFunc("route.(*Route).updateEqualPathCount")
+	ecmpFn := p.Func("route.(*Path).ECMP")
+	cntF := p.Field("route", "Route", "ecmpPaths")
+	if f == nil || ecmpFn == nil || cntF == nil {
+		return
+	}
+	c.Analysed(f)
+	// the local counter stored into ecmpPaths
+	var counter types.Object
+	ast.Inspect(f.Decl.Body, func(n ast.Node) bool {
+		if as, ok := n.(*ast.AssignStmt); ok && len(as.Lhs) == 1 && len(as.Rhs) == 1 && core.FieldOf(f.Pkg, as.Lhs[0]) == cntF {
+			if o := core.ObjOf(f.Pkg, as.Rhs[0]); o != nil {
+				counter = o
+			}
+		}
+		return true
+	})
+	if counter == nil {
+		c.Undecided(rule, f.Name(), f.Decl.Pos(), "no local counter stored into Route.ecmpPaths")
+		return
+	}
+	isInc := func(n ast.Node) bool {
+		switch x := n.(type) {
+		case *ast.IncDecStmt:
+			return x.Tok == token.INC && core.ObjOf(f.Pkg, x.X) == counter
+		case *ast.AssignStmt:
+			if len(x.Lhs) == 1 && core.ObjOf(f.Pkg, x.Lhs[0]) == counter && (x.Tok == token.ADD_ASSIGN || (x.Tok == token.ASSIGN && core.NodeHas(x.Rhs[0], func(m ast.Node) bool { id, ok := m.(*ast.Ident); return ok && f.Pkg.TypesInfo.Uses[id] == counter }))) {
+				return true
+			}
+		}
+		return false
+	}
+	g := p.CFG(f)
+	found := 0
+	for _, b := range g.Blocks {
+		if !b.Live || len(b.Nodes) == 0 || len(b.Succs) != 2 {
+			continue
+		}
+		last, ok := b.Nodes[len(b.Nodes)-1].(ast.Expr)
+		if !ok {
+			continue
+		}
+		// locate the ECMP call inside the condition: through &&, || and !.  go/cfg does not split short-circuit operators, so
+		// `i < n && ECMP(…)` is one condition node: ECMP false ⇒ condition false.  `… || !ECMP(…)`: ECMP false ⇒ condition true.
+		var call *ast.CallExpr
+		where := 0 // 1: ECMP false ⇒ cond false (positive, only under &&) · 2: ECMP false ⇒ cond true (negated, only under ||) · -1: unknown
+		var find func(e ast.Expr, neg bool, underAnd, underOr bool)
+		find = func(e ast.Expr, neg bool, underAnd, underOr bool) {
+			e = core.Unparen(e)
+			switch x := e.(type) {
+			case *ast.UnaryExpr:
+				if x.Op == token.NOT {
+					find(x.X, !neg, underAnd, underOr)
+				}
+			case *ast.BinaryExpr:
+				if x.Op == token.LAND {
+					find(x.X, neg, true, underOr)
+					find(x.Y, neg, true, underOr)
+				}
+				if x.Op == token.LOR {
+					find(x.X, neg, underAnd, true)
+					find(x.Y, neg, underAnd, true)
+				}
+			case *ast.CallExpr:
+				if core.Callee(f.Pkg, x) != ecmpFn.Obj {
+					return
+				}
+				call = x
+				switch {
+				case !neg && !underOr:
+					where = 1
+				case neg && !underAnd:
+					where = 2
+				default:
+					where = -1
+				}
+			}
+		}
+		find(last, false, false, false)
+		if call == nil {
+			continue
+		}
+		found++
+		if where < 0 {
+			c.Undecided(rule, f.Name()+" ECMP test", call.Pos(), "the ECMP test is combined with other conditions in a way the rule does not follow")
+			continue
+		}
+		falseSucc := b.Succs[1]
+		if where == 2 {
+			falseSucc = b.Succs[0]
+		}
+		// reachable increments from the false outcome
+		seen := map[int32]bool{}
+		var hit ast.Node
+		var walk func(bl *cfgBlock)
+		_ = walk
+		stack := []*cfgBlock{falseSucc}
+		for len(stack) > 0 && hit == nil {
+			bl := stack[len(stack)-1]
+			stack = stack[:len(stack)-1]
+			if seen[bl.Index] {
+				continue
+			}
+			seen[bl.Index] = true
+			for _, n := range bl.Nodes {
+				if isInc(n) {
+					hit = n
+					break
+				}
+			}
+			stack = append(stack, bl.Succs...)
+		}
+		pos := call.Pos()
+		if hit != nil {
+			pos = hit.Pos()
+		}
+		c.Check(hit == nil, rule, f.Name()+" stops counting at the first pair that is not equal-cost", pos,
+			"after an ECMP comparison of two neighbouring paths came out false the counter can still be incremented: paths behind a strictly worse path are counted into the equal-cost set whenever they are equal-cost among themselves, so ECMPPaths() reports paths the decision process ranks below the best path")
+	}
+	c.Check(found >= 1, rule, f.Name()+" tests neighbouring paths with Path.ECMP", f.Decl.Pos(), "no branch on Path.ECMP found")
+}
+
+type cfgBlock = cfg.Block
